@@ -11,6 +11,8 @@ Profiles (one per property that uses this oracle):
   reset   plain + reset_state                                                       -> C17
   refuse  plain with mostly invalid arguments (unknown variable, path, flow, slot)   -> C09
   eval    plain + evaluate_function (functions of the story with arguments, unknown names)  -> C16
+  observe plain + observe_variable / remove_variable_observer; the notifications of every call are compared   -> C11
+  slices  continues replaced by time-limited continues (step budgets), guarded calls in between               -> C08
 A mismatch is attributed to the property of the profile only from the first call of the profile's own kind on;
 earlier ones are handed to C01 (plain play), whose check runs the plain profile itself."""
 import json
@@ -23,8 +25,9 @@ import gen_ast
 import lib
 
 SPECIAL = {"save": {"save", "load"}, "flows": {"switch_flow", "switch_default", "remove_flow"}, "reset": {"reset"},
-           "eval": {"eval_fn"}, "refuse": None, "plain": None}
-OWNER = {"save": "C02", "flows": "C10", "reset": "C17", "refuse": "C09", "plain": "C01", "eval": "C16"}
+           "eval": {"eval_fn"}, "observe": {"observe", "remove_observer"}, "slices": {"cont_async"}, "refuse": None, "plain": None}
+OWNER = {"save": "C02", "flows": "C10", "reset": "C17", "refuse": "C09", "plain": "C01", "eval": "C16", "observe": "C11",
+         "slices": "C08"}
 
 
 def chars(s):
@@ -46,6 +49,14 @@ def history(rnd, prog, profile, length):
     funcs = [(k, len(v["params"])) for k, v in prog["prog"]["knots"].items() if v["kind"] == "function"]
     if profile == "eval":
         weights.update(eval_fn=5)
+    gvars = [g["n"] for g in prog["prog"]["globals"]]
+    if profile == "observe":
+        weights.update(observe=1.5, remove_observer=1, set_var=3, reset=0.5, watch=1.5)
+        for v in gvars:
+            ops.append({"op": "observe", "obs": 1, "var": v})
+    names = list(weights)
+    if profile == "slices":
+        weights.update(cont_async=12, cont=3, choose=4, switch_flow=0.7, reset=0.3, choose_path=1.5)
     names = list(weights)
     bad = 0.6 if profile == "refuse" else 0.12
     if profile == "save" and rnd.random() < 0.5:
@@ -89,6 +100,31 @@ def history(rnd, prog, profile, length):
             ops += [{"op": "cont"}] * rnd.choice([0, 1, 2])
         elif k == "remove_flow":
             ops.append({"op": "remove_flow", "name": rnd.choice(["f1", "f2", "f1", "DEFAULT_FLOW", "zz"])})
+        elif k == "watch":
+            # several observers on one variable, one of them taken away again, then the variable changes
+            v = rnd.choice(gvars)
+            ops += [{"op": "observe", "obs": 2, "var": v}, {"op": "observe", "obs": 3, "var": v}]
+            ops.append({"op": "remove_observer", "obs": rnd.choice([1, 2, 3]), "var": v})
+            if v in ints:
+                ops.append({"op": "set_var", "name": v, "value": {"t": "int", "v": rnd.randint(6, 9)}})
+            ops.append({"op": "turn"})
+        elif k == "observe":
+            ops.append({"op": "observe", "obs": rnd.choice([1, 2, 3]), "var": rnd.choice(gvars) if rnd.random() > bad else "nosuch"})
+        elif k == "remove_observer":
+            ops.append({"op": "remove_observer", "obs": rnd.choice([1, 2, 3]), "var": rnd.choice(gvars)})
+        elif k == "cont_async":
+            # slices of a few interpreter steps each until the line is finished (or the history moves on mid-line)
+            for _ in range(rnd.choice([1, 2, 3, 6])):
+                ops.append({"op": "cont_async", "budget": rnd.choice([1, 2, 3, 5, 8, 13, 40])})
+                if rnd.random() < 0.25:
+                    ops.append(rnd.choice([{"op": "choose_path", "path": rnd.choice(knots) if knots else "k0", "reset": True},
+                                           {"op": "switch_flow", "name": "f1"}, {"op": "reset"}, {"op": "choose", "i": 0},
+                                           {"op": "observe", "obs": 4, "var": gvars[0]}]))
+            # a plain continue finishes a sliced one that is still unfinished (and is an ordinary continue or a refused one
+            # otherwise): the other calls of the history then never fall into the middle of a line
+            ops.append({"op": "cont"})
+        elif k == "switch_flow" and profile == "slices":
+            ops.append({"op": "switch_flow", "name": rnd.choice(["f1", "DEFAULT_FLOW"])})
         elif k == "eval_fn":
             if funcs and rnd.random() > bad:
                 f, n = rnd.choice(funcs)
@@ -113,7 +149,7 @@ def run(profile, tier, seed, nprog=None, nhist=None, length=None, name=None):
     wd = lib.workdir("HOST-" + profile)
     lib.build("debug")
     rnd = random.Random("%s/%s" % (profile, seed))
-    focus = {"save": "threads"}.get(profile)
+    focus = {"save": "threads", "observe": "assign"}.get(profile)
     progs = [gen_ast.generate(seed * 7000003 + i + 31 * sum(map(ord, profile)), c01.DEFAULT, knots=2 + i % 3,
                               focus=focus if i % 2 else None) for i in range(nprog)]
     scs, meta = [], {}
@@ -145,7 +181,10 @@ def run(profile, tier, seed, nprog=None, nhist=None, length=None, name=None):
             op = r["opfull"]
             sv = c01.save_view(o["save"], flows) if isinstance(o.get("save"), dict) and "flows" in o["save"] else None
             vs = {k: c01.value_json(v) for k, v in (o.get("vars") or {}).items() if c01.value_json(v)}
-            seen = {"text": chars(o.get("text") or ""), "tags": [chars(t) for t in (o.get("tags") or [])], "can": bool(o.get("can")),
+            # (mid-line, during an unfinished time-limited continue, text and tags are refused: not compared then)
+            text = o.get("text") if isinstance(o.get("text"), str) else ""
+            tags = o.get("tags") if isinstance(o.get("tags"), list) else []
+            seen = {"text": chars(text), "tags": [chars(t) for t in tags], "can": bool(o.get("can")),
                     "choices": [{"text": chars(c["text"]), "tags": [chars(t) for t in c.get("tags", [])]} for c in o.get("choices", [])],
                     "vars": vs or {"_": {"t": "int", "v": 0}},
                     "cur": (o.get("save") or {}).get("currentFlowName", "") if isinstance(o.get("save"), dict) else "",
@@ -154,7 +193,11 @@ def run(profile, tier, seed, nprog=None, nhist=None, length=None, name=None):
             if ret is not None and c01.value_json(ret) is None:
                 bad = True      # (a value outside the model's types)
                 break
-            out.append({"op": op["op"], "i": r.get("chosen", op.get("i", 0)), "name": op.get("name", op.get("path", "")),
+            notes = [{"o": c["o"], "var": c["var"], "val": c01.value_json(c["val"]) or {"t": "other"}}
+                     for c in (r.get("cb") or []) if c.get("k") == "obs"]
+            out.append({"op": op["op"], "i": r.get("chosen", op.get("obs", op.get("i", 0))),
+                        "name": op.get("name", op.get("path", op.get("var", ""))), "notes": notes,
+                        "finished": bool(r.get("finished", True)),
                         "args": op.get("args", []), "val": c01.value_json(ret) if ret is not None else {"t": "void"},
                         "ftext": chars((r.get("val") or {}).get("text", "")) if op["op"] == "eval_fn" and isinstance(r.get("val"), dict) else [],
                         "value": op.get("value", {"t": "int", "v": 0}), "reset": bool(op.get("reset", False)),
@@ -200,7 +243,8 @@ def run(profile, tier, seed, nprog=None, nhist=None, length=None, name=None):
         p, ops = meta[m["case"]]
         m["story"] = p["ink"]
         m["history"] = [dict((k, v) for k, v in o.items() if k in ("op", "i", "name", "value", "reset", "slot", "res")) for o in c["ops"][:m["op_index"]]]
-        m["actual"] = dict(res=c["ops"][m["op_index"] - 1]["res"], seen=c["ops"][m["op_index"] - 1]["seen"])
+        m["actual"] = dict(res=c["ops"][m["op_index"] - 1]["res"], seen=c["ops"][m["op_index"] - 1]["seen"],
+                           notes=c["ops"][m["op_index"] - 1]["notes"], finished=c["ops"][m["op_index"] - 1]["finished"])
         before = c["ops"][:m["op_index"]]
         if special is None:
             mine = profile == "plain" or any(o["res"] == "err" for o in before)
@@ -277,7 +321,7 @@ if __name__ == "__main__":
         print(json.dumps({k: m[k] for k in ("case", "op_index", "rule", "op", "history")})[:1500])
 
         def t(x):
-            if isinstance(x, list) and x and all(isinstance(c, int) for c in x):
+            if isinstance(x, list) and x and all(isinstance(c, int) and c > 8 for c in x):
                 return "".join(chr(c) for c in x)
             if isinstance(x, list):
                 return [t(y) for y in x]
